@@ -145,6 +145,10 @@ def run_recovered(case, prop, sweep, direction="out"):
                             break
                 except StopIteration:
                     pass
+                except (TraphException, KeyError, ValueError, TypeError, AttributeError, IndexError) as e:
+                    # the library fails a well-formed crawl batch: some property's business, not a clause of this sweep
+                    TraphIteratorState.should_yield = saved_yield
+                    raise Foreign("op_exception", "crawl batch raised %s: %s" % (type(e).__name__, e))
                 g.close()  # the caller drops the request
                 TraphIteratorState.should_yield = saved_yield
                 res.stats["abandoned_requests"] += 1
@@ -172,7 +176,7 @@ def run_recovered(case, prop, sweep, direction="out"):
                     return raw
 
                 raw = sweep_now(label)
-                if retry and not _benign_leftovers(raw.fs.errors):
+                if retry and not _benign_leftovers(raw.fs.errors) and not os.environ.get("VERIF_RETRY_ALL"):
                     res.stats["recovered_states_not_continued"] += 1
                     retry = []
                 if retry:
@@ -231,6 +235,7 @@ def add_recovered(case, g, rng):
     else:
         saved = g.weights
         g.weights = {"batch": 1}
+        g.queue = []
         o = g.op()
         g.weights = saved
         case["recovered"] = {"kind": "abandon", "task": {"data": o["data"]}, "steps": rng.choice([1, 1, 2, 3, 4, 6, 9]), "reopen": rng.random() < 0.4}
